@@ -42,11 +42,11 @@ func init() {
 			"row or in a later empty response, early more_results=false only when the scan is really exhausted). Result " +
 			"sequence compared with a model computed from the case alone. Small scope, exhaustive in the thorough tier (1/8 sample in " +
 			"quick): 3 rows x 2 cells, 3 layouts, 9 range shapes, both directions, partials on/off, every chunk script of length 3 over " +
-			"{all, one row, row split in two, trailing fragment, heartbeat, complete row flagged partial} x {end announced later} x " +
+			"{all, one row, row split in two, trailing fragment, heartbeat, complete row flagged partial, split with an empty fragment, results flagged as heartbeat} x {end announced later} x " +
 			"{early more_results=false}. distinct = distinct case description; non-trivial " +
 			"= at least one row in range or at least two regions",
 		Assumptions: []string{
-			"random cases use row keys and boundaries of at most 3 bytes; rows with more than eight trailing 0xff right below a region boundary are played by a dedicated group (known finding)",
+			"row keys and boundaries never contain eight consecutive 0xff (excluded by the property: the client's documented approximation for reversed scans); up to seven trailing 0xff right below a boundary are played by a dedicated group",
 			"simulator scan semantics follow DESIGN.md §7",
 		},
 		Plan: func(tier string) fw.Plan {
@@ -114,6 +114,14 @@ func scriptedPolicy(shapes []int, endLater, moreFalse bool) func(*sim.ScanCtx) s
 				ch.SplitFirst = []int{1, x.NextRowCells - 1}
 				ch.EmptyFragment = true
 			}
+		case 7:
+			// a response flagged as heartbeat that carries what was collected so far
+			ch.HeartbeatFlag = true
+			if x.AllowPartials && x.NextRowCells > 1 && !x.InFragment {
+				ch.TrailingCells = 1
+			} else {
+				ch.Rows = one
+			}
 		}
 		return ch
 	}
@@ -121,7 +129,7 @@ func scriptedPolicy(shapes []int, endLater, moreFalse bool) func(*sim.ScanCtx) s
 
 // c06Enumerate runs the small-scope exhaustive part: 3 rows x 2 cells, 3
 // layouts, all range shapes in both directions, partial results on/off, every
-// chunk script of length 3 over 7 shapes x 2 x 2 flags. stride > 1 samples it.
+// chunk script of length 3 over 8 shapes x 2 x 2 flags. stride > 1 samples it.
 func c06Enumerate(c *fw.Ctx, stride int) {
 	rows := []string{"a", "b", "c"}
 	layouts := [][]string{nil, {"b"}, {"b", "c"}}
@@ -136,7 +144,7 @@ func c06Enumerate(c *fw.Ctx, stride int) {
 			}
 			for _, rg := range ranges {
 				for _, partials := range []bool{false, true} {
-					for script := 0; script < 343; script++ {
+					for script := 0; script < 512; script++ {
 						for flags := 0; flags < 4; flags++ {
 							i++
 							if (i/stride)%c.NBatches != c.Batch || i%stride != 0 {
@@ -144,7 +152,7 @@ func c06Enumerate(c *fw.Ctx, stride int) {
 							}
 							sc := scanCase{Seed: int64(i), Rows: rows, CellsPer: []int{2, 2, 2}, Bounds: bounds, Start: rg[0], Stop: rg[1],
 								Reversed: dir == 1, NumRows: 0, Partials: partials, Servers: 1}
-							shapes := []int{script % 7, script / 7 % 7, script / 49}
+							shapes := []int{script % 8, script / 8 % 8, script / 64}
 							id := fmt.Sprintf("enum-%d", i)
 							if i%2000 == 0 {
 								c.Begin(id, sc)
@@ -182,11 +190,11 @@ func c06Enumerate(c *fw.Ctx, stride int) {
 
 // c06PaddedStart: a reversed scan that leaves a region continues from "the
 // nearest key below the region's start key", which the client approximates by
-// decrementing the last byte and appending eight 0xff. Rows between that
-// approximation and the boundary (k > 8 trailing 0xff) exist in the table and
-// lie in range.
+// decrementing the last byte and appending eight 0xff. The property excludes
+// row keys with a run of eight 0xff; rows with up to seven trailing 0xff right
+// below a boundary are inside it and must be returned.
 func c06PaddedStart(c *fw.Ctx) {
-	for _, k := range []int{1, 7, 8, 9, 12} {
+	for _, k := range []int{1, 4, 7} {
 		for _, partials := range []bool{false, true} {
 			long := "a" + strings.Repeat("\xff", k)
 			sc := scanCase{Seed: int64(k), Rows: []string{"a", long, "b", "c"}, CellsPer: []int{1, 2, 1, 1}, Bounds: []string{"b"},
@@ -211,17 +219,6 @@ func c06PaddedStart(c *fw.Ctx) {
 				c.Violate(id, "scan:error", fmt.Sprintf("scan failed on a fault-free cluster: %v: %s", err, sc.sig()), sc)
 			default:
 				if f, d := compareScan(got, model, sc.Partials, false); f != "" {
-					// exactly the row above the padded start row missing, everything else right?
-					var without []modelRow
-					for _, m := range model {
-						if m.Row != long {
-							without = append(without, m)
-						}
-					}
-					if f2, _ := compareScan(got, without, sc.Partials, false); f2 == "" && k > 8 {
-						f = "scan:reversed-skips-row-above-padded-start"
-						d = fmt.Sprintf("reversed scan over the boundary \"b\" continued from \"a\"+8x0xff and never returned the row \"a\"+%dx0xff that lies in range", k)
-					}
 					c.Violate(id, f, d+" :: "+sc.sig(), sc)
 				}
 			}
